@@ -59,6 +59,8 @@ type Config struct {
 	// TrustSigners: the issuing CAs are configured as trusted signature certs
 	// (needed for configured CRLs in mode verify: there is no handshake chain at provisioning).
 	TrustSigners bool `json:"trust_signers,omitempty"`
+	// T61Names: the issuing CAs' names are TeletexStrings that differ in one Latin-1 character only
+	T61Names bool `json:"t61_names,omitempty"`
 }
 
 // CDPSpec is one distribution-point set.
@@ -118,6 +120,18 @@ type Spec struct {
 
 // issuer names: minimally different (extra char, trailing underscore+digit like the store key separator, extra RDN)
 func issuerName(base string, i int) gen.NameSpec {
+	if strings.HasPrefix(base, "t61:") {
+		// names written as TeletexString whose only difference is one Latin-1 character (a byte that is not valid UTF-8)
+		base = base[4:]
+		switch i {
+		case 0:
+			return gen.NameSpec{{{T: "O", V: "verif"}}, {{T: "CN", V: base + " Z\u00fcrich ca", Kind: "t61"}}}
+		case 1:
+			return gen.NameSpec{{{T: "O", V: "verif"}}, {{T: "CN", V: base + " Z\u00f6rich ca", Kind: "t61"}}}
+		default:
+			return gen.NameSpec{{{T: "O", V: "verif"}}, {{T: "CN", V: base + " Z\u00e4rich ca", Kind: "t61"}}}
+		}
+	}
 	switch i {
 	case 0:
 		return gen.NameSpec{{{T: "O", V: "verif"}}, {{T: "CN", V: base + " ca"}}}
@@ -534,7 +548,11 @@ func Run(spec Spec, x *ev.Ctx, obs Observer) (*Result, error) {
 	keys := [][2]string{{"p256a", "p256b"}, {"rsa2048a", ""}, {"p384", "p256c"}}
 	sib := [][2]string{{"p256d", "p256e"}, {"rsa2048b", ""}, {"p521", "p256f"}}
 	for i := 0; i < spec.Issuers; i++ {
-		w.cas = append(w.cas, pkiWithName(w.base, i, keys[i]))
+		nameBase := w.base
+		if spec.Config.T61Names {
+			nameBase = "t61:" + w.base
+		}
+		w.cas = append(w.cas, pkiWithName(nameBase, i, keys[i]))
 		w.sibling = append(w.sibling, pkiWithName(w.base, i, sib[i]))
 	}
 	w.other = world.NewSimplePKI(w.base+" unrelated", "rsa2048c", "")
@@ -719,7 +737,7 @@ func Run(spec Spec, x *ev.Ctx, obs Observer) (*Result, error) {
 
 func pkiWithName(base string, i int, keys [2]string) *world.SimplePKI {
 	p := &world.SimplePKI{}
-	p.Root = gen.Issue(gen.CertSpec{Key: keys[0], Subject: gen.NameSpec{{{T: "O", V: "verif"}}, {{T: "CN", V: fmt.Sprintf("%s root %d", base, i)}}}, SerialHex: "01", IsCA: true}, nil)
+	p.Root = gen.Issue(gen.CertSpec{Key: keys[0], Subject: gen.NameSpec{{{T: "O", V: "verif"}}, {{T: "CN", V: fmt.Sprintf("%s root %d", strings.TrimPrefix(base, "t61:"), i)}}}, SerialHex: "01", IsCA: true}, nil)
 	if keys[1] != "" {
 		p.Inter = gen.Issue(gen.CertSpec{Key: keys[1], Subject: issuerName(base, i), SerialHex: "02", IsCA: true}, p.Root)
 	} else {
